@@ -108,7 +108,17 @@ func (t *runTarget) Evaluate(engine runner.Engine) error {
 		return nil
 	}
 
-	// Otherwise, evaluate the target.
+	// Otherwise, evaluate the target. First record that it is being run: if the process dies
+	// before the outcome is recorded, what the run has already done to the target's products
+	// must not be taken for the result of the last successful run.
+	if err := proj.saveTargetInfo(label, targetInfo{
+		Doc:          t.target.Doc(),
+		Dependencies: depData,
+		Rerun:        true,
+	}); err != nil {
+		proj.events.TargetFailed(label, err)
+		return err
+	}
 	verifCrash("eval.before", label.String())
 	data, changed, err := t.target.evaluate()
 	verifCrash("eval.after", label.String())
